@@ -1,5 +1,6 @@
 import Gtree.Lemmas.Validate
 import Gtree.Lemmas.HeapSpread
+import Gtree.Lemmas.HeapGrowSpread
 import Gtree.Lemmas.NetResult
 /-
   C14 — reader and writer failures are reported, never swallowed (model of the repaired code).
@@ -106,4 +107,22 @@ theorem C14_printer_reports_in_the_source (ds : SrcH.defaultSpreaderSimple) (h :
       e.isSome = (emit w.fault ((SrcH.readKids h ts rs 1).map lineOf) w.calls).2 := by
   have := SrcH.writeAll_emit ((SrcH.readKids h ts rs 1).map lineOf) w
   exact ⟨_, _, SrcH.spread_heap ds h ts w rs fuel hr hf, this.1, this.2.1⟩
+end Gtree
+
+namespace Gtree
+/-- Tie to the source (heap mode, regenerated on every run): WRITE ERRORS ON THE TEXT PATH OF `OutputFromRoot`.  The
+    translated one-pass printer (`growAndSpread` / `assembleAndPrint`: assemble a node's branch, print its row, recurse)
+    on any heap that holds a forest (all pointers different), with the caller's writer as a fault oracle, returns an
+    error exactly when a `Write` failed, has handed the writer exactly the bytes the model's `emit` accepts of the
+    model's `textChunks`, and stops at the failing `Write`: `C14_writer_root` is about this code. -/
+theorem C14_root_printer_reports_in_the_source (dgs : SrcH.defaultGrowSpreaderSimple)
+    (hv : dgs.defaultGrowerSimple.enabledValidation = false) (ts : List T) (h : SrcH.Heap) (w : Go.Writer)
+    (rs : List Go.Ptr) (fuel : Nat) (hr : SrcH.ReprRoots h ts rs) (hnd : (SrcH.ptrsKids h ts rs).Nodup)
+    (hf : 2 * sizeList ts + 1 ≤ fuel) :
+    ∃ h' w' e, SrcH.defaultGrowSpreaderSimple.growAndSpread fuel h w dgs rs = some (h', w', e) ∧
+      w'.out = w.out ++ (emit w.fault (ts.flatMap (textChunks (SrcH.fmtOf dgs.defaultGrowerSimple))) w.calls).1 ∧
+      e.isSome = (emit w.fault (ts.flatMap (textChunks (SrcH.fmtOf dgs.defaultGrowerSimple))) w.calls).2 := by
+  obtain ⟨h', hrun, _⟩ := SrcH.growAndSpread_forest dgs hv ts h w rs fuel hr hnd hf
+  have := SrcH.writeAll_emit (ts.flatMap (textChunks (SrcH.fmtOf dgs.defaultGrowerSimple))) w
+  exact ⟨h', _, _, hrun, this.1, this.2.1⟩
 end Gtree
